@@ -128,11 +128,17 @@ example :
 def C13_DrawingWF (syms : List Sym) : Prop :=
   ∀ ps ∈ nodeSymsOf syms, ∀ ps' ∈ nodeSymsOf syms, ps.2 = ps'.2 → Joined (wiresOf syms) ps.1 ps'.1
 
-/-- The translated circuit is the per-symbol translation (table-driven: identifier = symbol
-name, kind and values by the symbol's translator) under a node naming `lab` that is defined
-on every terminal of every named symbol and *realises* the wire partition — i.e. it is the
-intended netlist up to a bijective renaming of nodes (any two realising namings agree up to
-renaming, `C13_realising_unique`). -/
+/-- What is proved about `circuit_translator`: a node naming `lab` exists that is defined on every
+terminal of every named symbol, *realises* the wire partition (same name ⇔ joined), and is the
+naming `labelOf` the translation uses.  The fourth conjunct only unfolds the definition of
+`circuitTranslator` (it is `rfl`, it needs no hypothesis): the components are the per-symbol
+translations `translateSym` — an interpretation of the generated translator tables — under that
+naming.  NOT proved here: that kinds and values are those of an independent Spec of the symbols
+(the tables are tied to the code by generation, `C13_polarity` / `C13_tables` and the
+correspondence; the intended netlist is judged by the oracle), that the reference node
+(`groundNode`) is the node of the ground symbol, and that two translations agree up to a renaming
+(see `OPEN_STATEMENTS` of harness/props/c13.py).  `C13_realising_unique`: two realising namings
+induce the same partition. -/
 theorem C13_netlist (π : Rat) (ord : SetOrd Pt) (hord : ord.Valid) (syms : List Sym) (hwf : C13_DrawingWF syms) :
     ∃ lab : Pt → String,
       Realises (wiresOf syms) (allNodes syms) lab ∧
@@ -151,10 +157,13 @@ theorem C13_realising_unique {P L L' : Type} (ws : List (P × P)) (pts : List P)
 
 /-! ## metamorphic statements -/
 
-/-- **geometry**: any map of coordinates that is injective on the points used (rotation by
-multiples of 90°, translation, change of unit — composed with the rounding) preserves and
-reflects "joined by wires"; hence namings that realise the original and the transformed
-drawing agree up to a renaming of nodes. -/
+/-- **geometry** (a statement about the Spec relation `Joined` only — no model or generated term
+occurs in it): IF a coordinate map `f` is injective on the points used (`hinj`, an assumption:
+that *rounding ∘ rotation / translation / rescaling* is injective on the terminals of a given
+drawing is a fact about float geometry, checked per case by the oracle, never discharged
+here), THEN it preserves and reflects "joined by wires", and namings that realise the original
+and the transformed wire list induce the same partition.  That the two *translated circuits*
+agree up to renaming, and hence have the same solution, is judged by the metamorphic streams only. -/
 theorem C13_geometry {P Q L L' : Type} (f : P → Q) (D : P → Prop) (ws : List (P × P))
     (hinj : ∀ x y, D x → D y → f x = f y → x = y) (hD : CoversWires D ws) :
     (∀ p q, D p → D q → (Joined (mapWires f ws) (f p) (f q) ↔ Joined ws p q)) ∧
@@ -168,8 +177,9 @@ theorem C13_geometry {P Q L L' : Type} (f : P → Q) (D : P → Prop) (ws : List
   rw [Function.comp, Function.comp, this]
   exact (joined_map_iff hinj hD (hpts p hp) (hpts q hq)).symm
 
-/-- **wire split**: replacing a wire by a chain through fresh, pairwise distinct points does not
-change which of the original points are joined. -/
+/-- **wire split** (again a lemma about `Joined` on wire lists, not about the model): replacing a
+wire by a chain through fresh, pairwise distinct points does not change which of the original
+points are joined.  Its lifting to translated circuits is judged by the oracle (`subdivide`). -/
 theorem C13_wire_split {P : Type} [DecidableEq P] (pre post : List (P × P)) (a b : P) (cs : List P)
     (hfresh : ∀ c ∈ cs, FreshPt c (pre ++ (a, b) :: post)) (hnd : cs.Nodup)
     (p q : P) (hp : p ∉ cs) (hq : q ∉ cs) :
@@ -178,8 +188,10 @@ theorem C13_wire_split {P : Type} [DecidableEq P] (pre post : List (P × P)) (a 
 
 example : chainWires (0 : Nat) [7, 8] 1 = [(0, 7), (7, 8), (8, 1)] := rfl
 
-/-- **order**: permuting the symbol list permutes the wires and keeps the terminals, hence keeps
-the partition; the per-symbol translations are permuted with the symbols. -/
+/-- **order**: permuting the symbol list permutes the model's wire list (`wiresOf`) and keeps
+`allNodes` as a set, hence keeps `Joined`.  The third conjunct is the generic
+`List.Perm.filterMap` (any per-symbol function commutes with the permutation); that the node
+*naming*, the reference node and the solution are unaffected is judged by the oracle (`shuffle`). -/
 theorem C13_order (syms syms' : List Sym) (h : syms.Perm syms') :
     (∀ p q, Joined (wiresOf syms) p q ↔ Joined (wiresOf syms') p q) ∧
     (∀ p, p ∈ allNodes syms ↔ p ∈ allNodes syms') ∧
